@@ -161,6 +161,17 @@ def run(chk):
         # ---------------------------------------------------------------- statistics addition
         a, b = m.acc_stats(Xg[:5]), m.acc_stats(Xg[5:])
         guarded("GMMStats + GMMStats", {"a": a, "b": b}, lambda: a + b, lambda o: [o.n, o.sum_px, o.sum_pxx])
+        # an operand without frames (an empty segment) on either side: the sum is still a new object that shares nothing with the operands
+        for side in ("a + empty", "empty + a"):
+            e0 = GMMStats(len(np.asarray(a.n)), np.asarray(a.sum_px).shape[1])
+            asn = snap(a)
+            tot = (a + e0) if side == "a + empty" else (e0 + a)
+            chk.count(1, key=("GMMStats + with an empty operand", side))
+            if tot is a or shares([tot.n, tot.sum_px, tot.sum_pxx], [a]):
+                chk.fail("`%s` returns (storage of) its operand instead of a new statistics object" % side, {"entry": side})
+            tot += b
+            if snap(a) != asn:
+                chk.fail("after `t = %s; t += b` the operand a has changed" % side, {"entry": side})
         a2 = copy.deepcopy(a)
         bsnap = snap(b)
         a2 += b
